@@ -87,7 +87,7 @@ theorem ax_root_neg (x : ℝ) (n : ℕ) (hx : x ≠ 0) : sroot (-x) n = - sroot 
     have h2 : 0 ≤ -x := by linarith
     simp [h1, h2]
   · have h1 : 0 ≤ x := le_of_lt h
-    have h2 : ¬ (0 ≤ -x) := by push_neg; linarith
+    have h2 : ¬ (0 ≤ -x) := by intro hh; linarith
     simp [h1, h2]
 
 theorem ax_root_neg_odd (x : ℝ) (n : ℕ) (hx : x < 0) (hn : Odd n) :
@@ -122,7 +122,9 @@ include hf in theorem d_npow (n : ℕ) :
     HasDerivAt (fun y => (f y)^n) ((n:ℝ) * (f x)^(n-1) * f') x := hf.pow n
 include hf hg in theorem d_rpow (h : 0 < f x) : HasDerivAt (fun y => Real.exp (g y * Real.log (f y)))
     (Real.exp (g x * Real.log (f x)) * (g' * Real.log (f x) + g x * f' / f x)) x := by
-  have h1 := (hg.mul (hf.log (ne_of_gt h))).exp
+  have h0 : HasDerivAt (fun y => g y * Real.log (f y)) (g' * Real.log (f x) + g x * (f' / f x)) x :=
+    hg.mul (hf.log (ne_of_gt h))
+  have h1 := h0.exp
   convert h1 using 1
   ring
 include hf in theorem d_expb (b : ℝ) : HasDerivAt (fun y => Real.exp (f y * Real.log b))
